@@ -90,13 +90,16 @@ def check_ckd(case, ctx):
     with patch.prf(stub):
         st_, child = call(node.ckd, i)
     what = "%s ckd(%d), parent k=%#x, PRF output IL=%#x (%s)" % (side, i, p["k"], il, case["kind"])
+    if not stub.calls:
+        ctx.count("prf-substitution-not-effective: not judged")
+        return
     if not valid:
         ctx.count("invalid-output")
         if st_ == "ok":
             raise Violation("C18/%s-ckd/invalid-child-returned[%s]" % (side, "IL>=n" if il >= N else "zero-or-infinity"),
                             "%s returned a node with key %s instead of failing"
                             % (what, bytes(getattr(child, "key", b"")).hex()))
-        if node.children:
+        if getattr(node, "children", None):
             ctx.count("raised-but-child-left-in-children (not judged)")
         return
     ctx.count("valid-control")
@@ -144,6 +147,9 @@ def check_master(case, ctx):
         else:
             st_, node = call(lambda: BaseWallet.from_bip39_seed_hex(case["seed"].hex(), case["testnet"]).master)
     what = "%s with PRF output IL=%#x" % (case["via"], il)
+    if not stub.calls:
+        ctx.count("prf-substitution-not-effective: not judged")
+        return
     if il == 0 or il >= N:
         if st_ == "ok":
             raise Violation("C18/master/invalid-master-returned", "%s returned a node with key %s"
@@ -151,7 +157,7 @@ def check_master(case, ctx):
         return
     if st_ == "exc":
         raise Violation("C18/master/valid-master-refused", "%s raised %r" % (what, node))
-    if len(stub.calls) != 1 or stub.calls[0] != (b"Bitcoin seed", case["seed"]):
+    if any(c != (b"Bitcoin seed", case["seed"]) for c in stub.calls):
         raise Violation("C18/master/hmac-arguments", "%s: PRF called with %r" % (what, stub.calls[:2]))
     compare_node("C18/master/control", what, node, R.Node.from_priv(il, case["ir"]), case["testnet"])
 
@@ -185,6 +191,9 @@ def check_bip85(case, ctx):
     with patch.prf(stub, modules=("btc_hd_wallet.bip85",)):
         st_, val = call(getattr(b, case["app"]), case["index"])
     what = "bip85.%s(%d) with chosen entropy whose secret half is %#x" % (case["app"], case["index"], sec)
+    if not stub.calls:
+        ctx.count("prf-substitution-not-effective: not judged")
+        return
     if sec == 0 or sec >= N:
         if st_ == "ok":
             raise Violation("C18/bip85/invalid-secret-emitted[%s]" % case["app"], "%s returned %r" % (what, val))
@@ -196,7 +205,7 @@ def check_bip85(case, ctx):
     want = f(rm, case["index"], prf=lambda key, msg: out)
     if val != want:
         raise Violation("C18/bip85/control-differs[%s]" % case["app"], "%s = %r, expected %r" % (what, val, want))
-    if len(stub.calls) != 1 or stub.calls[0][0] != b"bip-entropy-from-k":
+    if any(c[0] != b"bip-entropy-from-k" for c in stub.calls):
         raise Violation("C18/bip85/hmac-arguments", "%s: entropy PRF calls %r" % (what, [c[0] for c in stub.calls]))
 
 
@@ -242,6 +251,9 @@ def check_seq(case, ctx):
     stub = patch.ScriptedPRF({at: out})
     with patch.prf(stub):
         st_, val = call(root.derive_path, path)
+    if len(stub.calls) <= at:
+        ctx.count("prf-substitution-not-effective: not judged")
+        return
     if st_ == "ok":
         raise Violation("C18/sequence/derive_path-returned", "%s derive_path(%s) returned %r although the PRF output at "
                         "level %d was invalid (%s, IL=%#x)" % (side, R.fmt_path(path), val, at + 1, case["kind"], il))
